@@ -29,6 +29,8 @@ PROGS = collections.OrderedDict([
     ("twoparams", H + "\nG({a}+{b}, k={a}*2) | [0, 1]\nG({b}) | 1\n"),
     ("loop", H + "\nfor int i in 0:2\n    G({a}, i) | i\n"),
     ("plain", H + "\nG | 0\nH(1.5, k=[1]) | 1\nK() | [0, 1]\n"),
+    ("regref-negpow", H + "\nMeasureX | 0\nG(-(q0**2)*q1, {a}) | 2\nH(p=-(q1**3)) | 3\n"),
+    ("pstring", H + "\nG(\"p1\", {a}, tag=\"p20\", l=[\"p0\"]) | 0\n"),
     ("affine", H + "\nG(2*{a}-1, 1-{b}/3) | 0\nH(k=0.5*{a}*{b}-{a}+2) | 1\n"),
     ("tdm-template", H + "type tdm (temporal_modes=3)\n\nfloat array p0 =\n    0.5, 1.5\nG(p0, {a}) | 0\n"),
 ])
@@ -48,7 +50,7 @@ def _p(vals, key):
     if key == "wholearray2x2" and not hasattr(vals["P"], "shape"):
         return dict(vals, P=[[vals["P"][0][0], vals["P"][0][1]], [5.0, 6.0]])
     return vals
-EVENTS = ["dumps", "read", "graph", "mutgraph", "call1", "call2", "call1b", "call1n", "mutcaller", "dumpsI0", "graphI0", "graphI1", "match0", "match1",
+EVENTS = ["dumps", "read", "graph", "mutgraph", "other", "call1", "call2", "call1b", "call1n", "mutcaller", "dumpsI0", "graphI0", "graphI1", "match0", "match1",
           "mut0:arg", "mut0:list", "mut0:arr", "mut0:opt", "mut0:op", "mut0:gate", "mut0:var", "mut0:modes", "mut0:rrt", "mut1:arg", "mut1:arr"]
 MAXINST = 3
 
@@ -121,6 +123,16 @@ def apply_event(T, inst, ev, key=None, caller=None):
         _ = (T.name, T.version, T.target, T.programtype, T.operations, T.parameters, T.variables, T.modes, T.is_template(), len(T))
         for o in T.operations:
             _ = (o.get("args"), o.get("kwargs"), o["modes"], o["op"])
+    elif ev == "other":
+        # something is done with ANOTHER, unrelated program in between (a tdm template: loaded, serialised, instantiated, drawn)
+        st_, O = common.loads(H + "type tdm (temporal_modes=2)\n\nfloat array p1 =\n    0.5, 1.5\nint array p20 =\n    1, 2\nSgate(p1, {a}) | 0\nMeasureHomodyne(phi=p20) | 0\n")
+        if st_ == "ok":
+            common.dumps(O)
+            try:
+                common.dumps(O(a=0.5))
+                to_DiGraph(O)
+            except Exception:  # noqa
+                pass
     elif ev == "graph":
         to_DiGraph(T)
     elif ev == "mutgraph":
@@ -256,9 +268,44 @@ def build(key, hist):
     return state, viol, len(inst), is_t
 
 
-def _trans(task):
+def _build_task(task):
     key, hist = task
     return build(key, list(hist))
+
+
+def _trans(task):
+    """every history runs in a fresh fork of a process that has imported the package and warmed the generated parser,
+    but has never loaded, serialised or instantiated anything: whatever the implementation keeps at module level
+    starts from its import-time value in every history"""
+    from bbv.core import forked
+    r = forked.run_forked(_build_task, task, timeout=600)
+    if r[0] != "ok":
+        raise RuntimeError("history %r failed: %r" % (task, r))
+    return r[1]
+
+
+def warm_parser():
+    # third-party machinery that is slow the first time it is used in a process (lazy imports, code generation):
+    # exercised here through its own API only, never through blackbird
+    import sympy as sym
+    import networkx as nx
+    x, y = sym.symbols("x y")
+    sym.lambdify([x, y], 2 * x - y / 3 + 1)(1.0, 2.0)
+    sym.lambdify([x], sym.sqrt(x) + x ** 2)(2.0)
+    str(2 * x - 1), sym.srepr(x * y), sym.solve(2 * x - 1 - 0.5, x), (x * y).subs({x: 1.5}).evalf(30)
+    g = nx.DiGraph()
+    g.add_edge(0, 1)
+    nx.is_isomorphic(g, g)
+    import antlr4
+    from blackbird.blackbirdLexer import blackbirdLexer
+    from blackbird.blackbirdParser import blackbirdParser
+    for text in PROGS.values():
+        try:
+            ps = blackbirdParser(antlr4.CommonTokenStream(blackbirdLexer(antlr4.InputStream(text))))
+            ps.removeErrorListeners()
+            ps.start()
+        except Exception:  # noqa
+            pass
 
 
 def run(ctx):
@@ -269,8 +316,9 @@ def run(ctx):
     samples = []
     keys = common.shard(list(PROGS), ctx.seed)
     cap_hit = False
+    warm_parser()
     for key in keys:
-        s0, _, n0, is_t = build(key, [])
+        s0, _, n0, is_t = _trans((key, ()))
         seen = {s0: ((), 0, is_t)}
         frontier = [()]
         trans = 0
@@ -307,7 +355,7 @@ def run(ctx):
     cov = {"states": states_total, "transitions": trans_total, "traces_validated_against_impl": trans_total,
            "samples": samples[:6], "per_program": per_prog, "depth": depth, "events": EVENTS, "cap_hit": cap_hit,
            "evaluations": trans_total, "distinct_nontrivial": states_total,
-           "rule": "state = tuple of digests (serialisation text or exception, deep canonical content incl. which optional keys exist) of the program and its tracked instances (<=3); "
+           "rule": "every history runs in a fresh fork of a process that never used the package; state = tuple of digests (serialisation text or exception, deep canonical content incl. which optional keys exist) of the program and its tracked instances (<=3); "
                    "BFS over event sequences to the stated depth with de-duplication on the state; every transition replays its whole history on freshly loaded objects",
            "exhaustive": not cap_hit}
     return {"coverage": cov, "violations": V.records(),
